@@ -32,6 +32,8 @@ def atomic_facts_at(fa, node, assume=()):
                 continue
             if k[0].startswith(("and[", "or[", "ite[")):
                 continue
+            if getattr(fi.origin, "kind", "") == "stmt":
+                continue            # established by a constant assignment, not by a test
             cur.add(k)
         out = cur if out is None else out & cur
     return out or set(), F
